@@ -5,8 +5,8 @@ from . import c17_gen as G
 from .common import fhex as _fhex, ints
 
 PROP_FILE = "Properties/C17.v"
-GEN = ["GenC17"]
-RUN_FILES = ["Model/C17_run.v"]
+GEN = ["GenC17", "GenC17imp"]
+RUN_FILES = ["Model/C17_run.v", "Model/C17_imp_run.v"]
 
 FOUR_PI = 4 * math.pi
 REL_TOL = 1e-9                 # every area law is checked to REL_TOL * 4 pi r^2 (absolute)
@@ -16,6 +16,8 @@ SEP_CLOSE = 6e-5               # two distinct nodes (vertices / crossings) close
 PAR_ANGLE = 4.6e-4             # crossing angles below this made Arc.angle return 0 (|cos - 1| < 1e-7)
 RADII = (1.0, 6371.0, 2.5, 0.001, 6378137.0)
 
+IHDR = ("From Coq Require Import ZArith List Bool PrimFloat.\nFrom PR Require Import Base.ListX Base.F64 Model.SphPoly Model.C17_run Model.C17_imp_run.\n"
+        "Import ListNotations.\nOpen Scope Z_scope.\n")
 HDR = ("From Coq Require Import ZArith List Bool PrimFloat.\nFrom PR Require Import Base.ListX Base.F64 Model.SphPoly Model.C17_run.\n"
        "Import ListNotations.\nOpen Scope Z_scope.\n")
 
@@ -385,6 +387,18 @@ def match_nodes(verts, lon1, lat1, lon2, lat2, rows):
     return out
 
 
+def gni_coq_case(o):
+    """the translated Arc.get_next_intersection on the table of the ordered pair (a, b) vs the calls observed"""
+    tab = o.get("table_ab")
+    if not tab or tab["asym"] or "gni" not in tab:
+        return None
+    rows = tab["rows"]
+    rtxt = "[" + "; ".join("(%d, %d, %d, %s, %s, %s, %s)" % (c, row["e1"], row["e2"], fhex(row["d1"]), fhex(row["d2"]),
+                                                               zl(int(row["s12"])), zl(int(row["s21"]))) for c, row in enumerate(rows)) + "]"
+    qs = "[" + "; ".join("(%s, %s, %s, %s)" % tuple(zl(x) for x in q) for q in tab["gni"]) + "]"
+    return "(%d, %d, %s, %s)" % (len(o["lon_a"]), len(o["lon_b"]), rtxt, qs)
+
+
 def oper_coq_cases(o):
     """Coq cases (text) for the four operations of one pair whose tables were extracted"""
     out = []
@@ -521,6 +535,24 @@ def run(ctx):
         part = olines[k:k + 250]
         texts.append(("c17_walk_%02d" % (k // 250), HDR + "Definition cases : list (Z * Z * list (Z * Z * Z * float * float * Z * Z) * Z * bool * bool * Z * list (Z * Z)) := [%s].\n"
                       "Eval vm_compute in (bad chk_oper cases).\n" % ";\n".join(part), part, "bool_oper_walk"))
+    glines = []
+    for c, o in zip(pair_cases, obs["pairs"]):
+        if c.get("table") and "error" not in o and "table_err" not in o:
+            if "gni_err" in o.get("table_ab", {}):
+                ctx.broken.append(("correspondence:get_next_intersection", "observation failed: " + o["table_ab"]["gni_err"]))
+                continue
+            t = gni_coq_case(o)
+            if t is not None:
+                glines.append(t)
+    for k in range(0, len(glines), 150):
+        part = glines[k:k + 150]
+        texts.append(("c17_impgni_%02d" % (k // 150), IHDR + "Definition cases : list (Z * Z * list (Z * Z * Z * float * float * Z * Z) * list (Z * Z * Z * Z)) := [%s].\n"
+                      "Eval vm_compute in (bad chk_imp_gni cases).\n" % ";\n".join(part), part, "translated_get_next_intersection"))
+    ctx.count("corr_translated_gni_pairs", len(glines))
+    for k in range(0, len(hlines), 500):
+        part = hlines[k:k + 500]
+        texts.append(("c17_imphist_%02d" % (k // 500), IHDR + "Definition cases : list (Z * list Z * list (Z * Z)) := [%s].\n"
+                      "Eval vm_compute in (bad chk_imp_hist cases).\n" % ";\n".join(part), part, "translated_invert_inverse"))
     for k in range(0, len(hlines), 500):
         part = hlines[k:k + 500]
         texts.append(("c17_hist_%02d" % (k // 500), HDR + "Definition cases : list (Z * list Z * list (Z * Z)) := [%s].\n"
